@@ -8,6 +8,7 @@ verus! {
 //@include prelude/core.rs
 //@include prelude/stream.rs
 use pre::*;
+pub mod http_body { pub use crate::pre::SizeHint; }
 broadcast use {ax::dflt_u64, ax::dflt_vec_u8, pre::data_axioms};
 
 // ----------------------------------------------------------------------------------------------
@@ -187,6 +188,148 @@ impl<D: DataT, E: FromBoxError> MultipartStream<D, E> {
     //@ before "this.state += 1;" #3: proof { lemma_rest_frame(ph0, this.part_headers@, this.ranges@, i as int + 1); lemma_rest_nonneg(ph0, this.ranges@, i as int + 1); }
     //@end
 }
+
+
+// ----------------------------------------------------------------------------------------------
+// src/body.rs: BodyStream / Body dispatch (V-body).  Not extracted: `Body::poll_frame` (pin projection plus
+// `.map(|p| p.map(|o| o.map(Frame::data)))`, 3 lines wrapping each item into a data frame).
+#[verifier::reject_recursive_types(D)]
+#[verifier::reject_recursive_types(E)]
+//@item src/body.rs :: enum BodyStream rules=T_stream,R1
+#[verifier::reject_recursive_types(D)]
+#[verifier::reject_recursive_types(E)]
+//@item src/body.rs :: struct Body rules=T_stream,R1
+
+/// Bytes a body will still deliver if it ends cleanly, as far as this crate controls it (C12).
+spec fn owed_bytes<D: DataT, E: FromBoxError>(b: BodyStream<D, E>) -> int {
+    match b {
+        BodyStream::Once(Some(Ok(d))) => d.bytes().len() as int,
+        BodyStream::Once(_) => 0,
+        BodyStream::ExactLen(l) => l.remaining as int,
+        BodyStream::Multipart(s) => s.remaining as int,
+        BodyStream::Chunker(c) => c.queued_bytes() as int,
+    }
+}
+
+impl<D: DataT, E: FromBoxError> BodyStream<D, E> {
+    spec fn wf(&self) -> bool { self matches BodyStream::Multipart(s) ==> s.wf() }
+
+    //@fn src/body.rs :: impl Stream for BodyStream :: fn poll_next props=C01,C12,C20 implicit=C13,C20 rules=R1
+    fn poll_next(&mut self, cx: &mut Context) -> (r: Poll<Option<Result<D, E>>>)
+        requires old(self).wf(),
+        ensures
+            /*@C01,C12,C20 #dispatch_wf*/ final(self).wf(),
+            /*@C01,C12,C20 #dispatch_once*/ *old(self) matches BodyStream::Once(c) ==> r == Poll::Ready(c) && *final(self) == BodyStream::<D, E>::Once(None),
+            /*@C01,C12,C20 #dispatch_exact*/ *old(self) matches BodyStream::ExactLen(s0) ==> (*final(self) matches BodyStream::ExactLen(s1)
+                && exact_rel(s0.remaining, s0.stream.next_item(), r, s1.remaining) && s1.stream == s0.stream.after()),
+            /*@C01,C12,C20 #dispatch_multipart*/ *old(self) matches BodyStream::Multipart(s0) ==> (*final(self) matches BodyStream::Multipart(s1)
+                && acct_rel(s0.remaining, r, s1.remaining)
+                && ((r matches Poll::Ready(Some(Err(_))) || r matches Poll::Ready(None)) ==> s1.terminal())
+                && (s0.terminal() ==> r matches Poll::Ready(None))),
+            /*@C12,C20 #dispatch_chunker*/ *old(self) matches BodyStream::Chunker(c0) ==> (*final(self) matches BodyStream::Chunker(c1) && c0.poll_rel(r, c1)),
+    //@body
+    //@end
+}
+
+impl<D: DataT, E: FromBoxError> Body<D, E> {
+    //@fn src/body.rs :: impl Body for Body :: fn size_hint props=C01,C12
+    fn size_hint(&self) -> (r: SizeHint)
+        ensures
+            /*@C01,C12 #hint_exact_for_serve_bodies*/ !(self.0 is Chunker) ==> r.lower == owed_bytes(self.0) && r.upper == Some(r.lower),
+            /*@C12 #hint_chunker_delegated*/ self.0 matches BodyStream::Chunker(c) ==> r == c.size_hint_spec(),
+    //@body
+    //@end
+
+    //@fn src/body.rs :: impl Body for Body :: fn is_end_stream props=C12
+    fn is_end_stream(&self) -> (r: bool)
+        ensures
+            /*@C12 #eos_once*/ self.0 matches BodyStream::Once(c) ==> r == c.is_none(),
+            /*@C12 #eos_exact*/ self.0 matches BodyStream::ExactLen(l) ==> r == (l.remaining == 0),
+            /*@C12 #eos_multipart*/ self.0 matches BodyStream::Multipart(s) ==> r == (s.remaining == 0),
+            /*@C12 #eos_chunker_delegated*/ self.0 matches BodyStream::Chunker(c) ==> r == c.eos_spec(),
+    //@body
+    //@end
+
+    //@fn src/body.rs :: impl Body :: fn empty props=C01,C12,C15
+    fn empty() -> (r: Self)
+        ensures /*@C01,C12,C15 #empty_body*/ r.0 == BodyStream::<D, E>::Once(None),
+    //@body
+    //@end
+
+    //@fn src/body.rs :: impl From for Body #1 :: fn from as=from_static_bytes props=C01,C12
+    fn from_static_bytes(value: &'static [u8]) -> (r: Self)
+        ensures /*@C01,C12 #from_static_bytes*/ r.0 matches BodyStream::Once(Some(Ok(d))) && d.bytes() == value@,
+    //@body
+    //@end
+
+    //@fn src/body.rs :: impl From for Body #3 :: fn from as=from_vec props=C01,C12
+    fn from_vec(value: Vec<u8>) -> (r: Self)
+        ensures /*@C01,C12 #from_vec*/ r.0 matches BodyStream::Once(Some(Ok(d))) && d.bytes() == value@,
+    //@body
+    //@end
+}
+
+// ----------------------------------------------------------------------------------------------
+// Composition layer (L): trace lemmas.  Pure specification: they mention only the relations exported above.
+
+/// The byte accounting every `serve` body obeys per poll (`rem`: bytes still owed = the exact size hint).
+pub open spec fn acct_rel<D: Buf, E>(rem: u64, r: Poll<Option<Result<D, E>>>, rem2: u64) -> bool {
+    match r {
+        Poll::Ready(Some(Ok(d))) => d.bytes().len() <= rem && rem2 == rem - d.bytes().len(),
+        Poll::Ready(Some(Err(_))) => rem2 == rem || rem2 == 0,
+        Poll::Ready(None) => rem == 0 && rem2 == 0,
+        Poll::Pending => rem2 == rem,
+    }
+}
+
+pub struct Step<D, E> { pub out: Poll<Option<Result<D, E>>>, pub rem_after: u64 }
+
+pub open spec fn trace_ok<D: Buf, E>(rem0: u64, t: Seq<Step<D, E>>) -> bool
+    decreases t.len()
+{
+    t.len() == 0 || (trace_ok(rem0, t.drop_last())
+        && acct_rel(if t.len() == 1 { rem0 } else { t[t.len() - 2].rem_after }, t.last().out, t.last().rem_after))
+}
+pub open spec fn delivered<D: Buf, E>(t: Seq<Step<D, E>>) -> int
+    decreases t.len()
+{
+    if t.len() == 0 { 0 } else { delivered(t.drop_last()) + (match t.last().out { Poll::Ready(Some(Ok(d))) => d.bytes().len() as int, _ => 0 }) }
+}
+pub open spec fn no_error<D: Buf, E>(t: Seq<Step<D, E>>) -> bool {
+    forall|i: int| 0 <= i < t.len() ==> !(#[trigger] t[i].out matches Poll::Ready(Some(Err(_))))
+}
+pub open spec fn rem_at<D: Buf, E>(rem0: u64, t: Seq<Step<D, E>>) -> u64 { if t.len() == 0 { rem0 } else { t.last().rem_after } }
+
+//@lemma props=C01,C07,C12 lemma_exact_implies_acct
+pub proof fn lemma_exact_implies_acct<D: Buf, E>(rem: u64, item: Poll<Option<Result<D, E>>>, r: Poll<Option<Result<D, E>>>, rem2: u64)
+    requires exact_rel(rem, item, r, rem2)
+    ensures /*@C01,C07,C12 #exact_implies_acct*/ acct_rel(rem, r, rem2),
+            /*@C07 #short_or_failed_is_error*/ (item matches Poll::Ready(None) && rem != 0) ==> r matches Poll::Ready(Some(Err(_))),
+            /*@C07 #too_long_is_error*/ (item matches Poll::Ready(Some(Ok(d))) && d.bytes().len() > rem) ==> r matches Poll::Ready(Some(Err(_))),
+            /*@C07 #inner_error_is_error*/ (item matches Poll::Ready(Some(Err(_)))) ==> r matches Poll::Ready(Some(Err(_))),
+{}
+//@endlemma
+
+//@lemma props=C01,C07,C12 lemma_accounting_trace
+/// For every trace of polls (any chunking, empty chunks, Pending polls, any number of steps):
+/// never more than announced; hint = announced - delivered while no error occurred; a clean end means exactly announced.
+pub proof fn lemma_accounting_trace<D: Buf, E>(rem0: u64, t: Seq<Step<D, E>>)
+    requires trace_ok(rem0, t)
+    ensures
+        /*@C01,C07 #never_more_than_announced*/ delivered(t) + rem_at(rem0, t) <= rem0,
+        /*@C01,C12 #hint_is_remaining*/ no_error(t) ==> delivered(t) + rem_at(rem0, t) == rem0,
+        /*@C01,C07 #clean_end_means_exact*/ (t.len() > 0 && no_error(t) && t.last().out matches Poll::Ready(None)) ==> delivered(t) == rem0,
+    decreases t.len()
+{
+    if t.len() > 0 {
+        lemma_accounting_trace(rem0, t.drop_last());
+        assert(no_error(t) ==> no_error(t.drop_last())) by {
+            if no_error(t) { assert forall|i: int| 0 <= i < t.drop_last().len() implies !(#[trigger] t.drop_last()[i].out matches Poll::Ready(Some(Err(_)))) by { assert(t.drop_last()[i] == t[i]); } }
+        }
+        if t.len() >= 2 { assert(t.drop_last().last() == t[t.len() - 2]); }
+    }
+}
+//@endlemma
 
 //@canary_false
 } // verus!
